@@ -47,7 +47,8 @@ type Req struct {
 type Fault struct {
 	Kind   string // "" none | status | reset | cut | nongzip (payload served as is)
 	Status int
-	CutAt  int // bytes of body sent before the connection is cut ("cut")
+	CutAt  int  // bytes of body sent before the connection is cut ("cut")
+	Once   bool // transient: only the first authenticated request for the host misbehaves, later ones are served
 }
 
 // Config is the behaviour of one fake endpoint.
@@ -71,6 +72,7 @@ type Config struct {
 }
 
 type Server struct {
+	faultFired     map[string]bool
 	cfg            Config
 	mu             sync.Mutex
 	log            []Req
@@ -421,7 +423,19 @@ func (s *Server) handle(w http.ResponseWriter, r *http.Request, connect string) 
 			http.Error(w, s.errBody(r, "no such host"), 404)
 			return
 		}
-		if s.fault(w, r, s.cfg.Faults[host], body) {
+		f := s.cfg.Faults[host]
+		if f.Once {
+			s.mu.Lock()
+			if s.faultFired == nil {
+				s.faultFired = map[string]bool{}
+			}
+			if s.faultFired[host] {
+				f = Fault{}
+			}
+			s.faultFired[host] = true
+			s.mu.Unlock()
+		}
+		if s.fault(w, r, f, body) {
 			return
 		}
 		w.Header().Set("Content-Type", "application/gzip")
